@@ -42,6 +42,10 @@ CFG = dict(
         seq("sweep", "asan", _SRC, 2098, 2098, mode="sweep"),
         seq("rel", "rel", _SRC, 10000, 4000000, mode="relprog"),  # mode only selects another PRNG stream
         seq("relsweep", "rel", _SRC, 2098, 2098, mode="sweep"),
+        # reentrancy: 2..8 threads run PRNG-derived workloads on this module at once; each thread's digest of everything it
+        # observed must equal the digest of the same workload run alone (harness/mt_pure.c); p0 = rounds per thread
+        seq("mt_tsan", "tsan", "mt_pure.c", 32, 3200, mode="cbor", params={0: 150}, wrap=True, leak=False),
+        seq("mt_rel", "rel", "mt_pure.c", 32, 3200, mode="cbor", params={0: 1500}, leak=False),
     ],
     post=_post,
     rule=("case = PRNG-derived item program (1-60 items, occasionally a 23..257-entry container or a 20..64-level chain): "
@@ -69,7 +73,7 @@ CFG = dict(
         "int_head_width_boundary": 100, "write_float_near_2p63": 50, "write_float_near_fltmax": 50,
         "write_float_exactly_pm_2p63": 10, "write_float_exactly_pm_fltmax": 10,
         "write_float_as_integer": 100, "write_float_as_single": 100, "write_float_as_double": 100,
-        "encoder_buffer_growth": 100, "string_ge_64k": 5, "nesting_eq_64": 5, "indefinite_container": 50,
+        "encoder_buffer_growth": 100, "one_decoder_skipped_1000_or_more_items": 20, "string_ge_64k": 5, "nesting_eq_64": 5, "indefinite_container": 50,
         "indefinite_string": 50, "skip_nested_item": 100, "skip_after_peek": 100, "tight_fit_write_forced_growth": 5,
         "count_head_ge_24": 5, "encoder_reset_reuse": 20, "skip_checks": 10000,
     }},
